@@ -13,6 +13,7 @@
 import WD.Proofs.Pipeline.ReplayRun
 import WD.Proofs.Pipeline.ReplayFlat
 import WD.Proofs.Pipeline.Burst
+import WD.Proofs.Pipeline.BurstFiles
 import WD.Proofs.Pipeline.Theorems
 namespace WD.C01
 open WD WD.Pipe
@@ -76,6 +77,39 @@ theorem burst_simple_partial (fs0 : FS) (hwf : fs0.WF) (full : Bool) (pre burst 
     · rfl
     · exact absurd ((stopped_iff _ pre inv hs hc hv).1 h) hroot
   exact burst_simple _ burst (hr.2.2 hst) hst hr.2.1 hb
+
+/-- **back to back, all file operations**: the same for bursts that also rename files, replace files by renaming onto
+    them, and move files out of and into the tree - the whole "file operations may follow each other without limit" clause
+    of the property.  (The cookies of the kernel pair each MOVED_TO with its own MOVED_FROM however many renames the batch
+    holds; a file's old name is never a key of the watch map; what the emitter makes of a file's records does not depend
+    on the file system it looks at.) -/
+theorem burst_files_partial (fs0 : FS) (hwf : fs0.WF) (full : Bool) (pre burst : List Op)
+    (hv : allValid (Sys.start fs0 true full) pre = true) (hroot : Op.rmdir ["W"] ∉ pre)
+    (hb : allFile ((Sys.start fs0 true full).run pre).1 burst = true) :
+    ((Sys.start fs0 true full).run pre).1.burst burst =
+      ((((Sys.start fs0 true full).run pre).1.run burst).1, (((Sys.start fs0 true full).run pre).1.run burst).2.flatten) := by
+  obtain ⟨inv, hs, hc, _, _⟩ := start_rec fs0 hwf full
+  have hr := run_rec _ pre inv hs hc hv
+  have hst : ((Sys.start fs0 true full).run pre).1.stopped = false := by
+    cases h : ((Sys.start fs0 true full).run pre).1.stopped
+    · rfl
+    · exact absurd ((stopped_iff _ pre inv hs hc hv).1 h) hroot
+  exact burst_files _ burst (hr.2.2 hst) hst hr.2.1 hb
+
+/-- non-vacuity: create, rename twice, replace another file by renaming onto it, move out, move a file in - one batch -/
+example :
+    let s := ((Sys.start FS.init true false).run [.mkdir ["W", "d"], .create ["W", "b"], .create ["O", "x"]]).1
+    let ops := [Op.create ["W", "d", "a"], .rename ["W", "d", "a"] ["W", "a"], .rename ["W", "a"] ["W", "b"],
+                .rename ["W", "b"] ["O", "b"], .rename ["O", "x"] ["W", "d", "x"]]
+    allFile s ops = true ∧
+    (s.burst ops).2.map PEv.toEvent =
+      [⟨.FileCreatedEvent, "W/d/a", "", false⟩, ⟨.DirModifiedEvent, "W/d", "", false⟩, ⟨.FileOpenedEvent, "W/d/a", "", false⟩,
+       ⟨.FileClosedEvent, "W/d/a", "", false⟩, ⟨.DirModifiedEvent, "W/d", "", false⟩,
+       ⟨.FileMovedEvent, "W/d/a", "W/a", false⟩, ⟨.DirModifiedEvent, "W/d", "", false⟩, ⟨.DirModifiedEvent, "W", "", false⟩,
+       ⟨.FileMovedEvent, "W/a", "W/b", false⟩, ⟨.DirModifiedEvent, "W", "", false⟩, ⟨.DirModifiedEvent, "W", "", false⟩,
+       ⟨.FileDeletedEvent, "W/b", "", false⟩, ⟨.DirModifiedEvent, "W", "", false⟩,
+       ⟨.FileCreatedEvent, "W/d/x", "", false⟩, ⟨.DirModifiedEvent, "W/d", "", false⟩] := by
+  decide +kernel
 
 /-- non-vacuity: a storm on one name inside a directory created before, read as one batch -/
 example :
